@@ -115,6 +115,16 @@ func init() {
 		"errors.Is":               stubErrorsIs,
 		"reflect.TypeOf":          stubReflectTypeOf,
 		"strings.TrimSpace":       stubTrimSpace,
+		"strings.HasPrefix":       stubStringsLit("HasPrefix"),
+		"strings.HasSuffix":       stubStringsLit("HasSuffix"),
+		"strings.Contains":        stubStringsLit("Contains"),
+		"strings.EqualFold":       stubStringsLit("EqualFold"),
+		"strings.Index":           stubStringsLit("Index"),
+		"strings.TrimPrefix":      stubStringsLit("TrimPrefix"),
+		"strings.TrimSuffix":      stubStringsLit("TrimSuffix"),
+		"strings.ToLower":         stubStringsLit("ToLower"),
+		"strings.ToUpper":         stubStringsLit("ToUpper"),
+		"strings.Cut":             stubStringsLit("Cut"),
 		"(*sync.Map).Load":        stubSyncMapLoad,
 		"(*sync.Map).Store":       stubSyncMapStore,
 		"(*sync.Map).LoadOrStore": stubSyncMapLoadOrStore,
@@ -1224,18 +1234,7 @@ func stubAddrPort(e *Engine, c *callCtx) bool {
 
 // netipAddr builds the netip.Addr that netip.AddrFromSlice returns for ip (zero is the zero Addr of that type).
 func (e *Engine) netipAddr(st *State, ip SliceV, zero StructV) (StructV, bool) {
-	sentinel := func(name string) Value {
-		if st.ghost == nil {
-			st.ghost = map[string]Value{}
-		}
-		if v, ok := st.ghost["netip:"+name]; ok {
-			return v
-		}
-		id := e.newObj(st, &Object{kind: kStruct, typ: e.rtypeType(), fields: []Value{StrV{k: strLit, lit: name}}})
-		v := PtrV{id, -1}
-		st.ghost["netip:"+name] = v
-		return v
-	}
+	sentinel := func(name string) Value { return e.netipSentinel(st, name) }
 	n := int64(0)
 	if ip.obj != 0 {
 		var ok bool
@@ -1256,6 +1255,20 @@ func (e *Engine) netipAddr(st *State, ip SliceV, zero StructV) (StructV, bool) {
 	h := zero.f[1].(StructV)
 	h.f = []Value{sentinel(z)}
 	return StructV{f: []Value{u, h}}, true
+}
+
+// netipSentinel is the object standing for netip's z4 / z6noz handle values (one per state).
+func (e *Engine) netipSentinel(st *State, name string) Value {
+	if st.ghost == nil {
+		st.ghost = map[string]Value{}
+	}
+	if v, ok := st.ghost["netip:"+name]; ok {
+		return v
+	}
+	id := e.newObj(st, &Object{kind: kStruct, typ: e.rtypeType(), fields: []Value{StrV{k: strLit, lit: name}}})
+	v := PtrV{id, -1}
+	st.ghost["netip:"+name] = v
+	return v
 }
 
 // netip.AddrFromSlice(b) (Addr, bool)
@@ -1394,4 +1407,48 @@ func stubSyncMapDelete(e *Engine, c *callCtx) bool {
 		}
 	})
 	return true
+}
+
+// ---------- package strings on literal arguments ----------
+// Computed natively when every string argument is a compile-time literal (or concatenation thereof);
+// anything symbolic stays unsupported (reported as INCONCLUSIVE, never guessed).
+func stubStringsLit(name string) stubFn {
+	return func(e *Engine, c *callCtx) bool {
+		var ss []string
+		for _, a := range c.args {
+			s, ok := a.(StrV)
+			if !ok || s.k != strLit {
+				panic(hardErr("no model for strings." + name + " on a symbolic string"))
+			}
+			ss = append(ss, s.lit)
+		}
+		lit := func(v string) Value { return StrV{k: strLit, lit: v} }
+		b := func(v bool) Value { return BoolV{e.tb.Bool(v)} }
+		switch name {
+		case "HasPrefix":
+			c.set(b(strings.HasPrefix(ss[0], ss[1])))
+		case "HasSuffix":
+			c.set(b(strings.HasSuffix(ss[0], ss[1])))
+		case "Contains":
+			c.set(b(strings.Contains(ss[0], ss[1])))
+		case "EqualFold":
+			c.set(b(strings.EqualFold(ss[0], ss[1])))
+		case "Index":
+			c.set(e.goInt(int64(strings.Index(ss[0], ss[1]))))
+		case "TrimPrefix":
+			c.set(lit(strings.TrimPrefix(ss[0], ss[1])))
+		case "TrimSuffix":
+			c.set(lit(strings.TrimSuffix(ss[0], ss[1])))
+		case "ToLower":
+			c.set(lit(strings.ToLower(ss[0])))
+		case "ToUpper":
+			c.set(lit(strings.ToUpper(ss[0])))
+		case "Cut":
+			x, y, ok := strings.Cut(ss[0], ss[1])
+			c.set(TupleV{lit(x), lit(y), b(ok)})
+		default:
+			panic(hardErr("no model for strings." + name))
+		}
+		return true
+	}
 }
